@@ -1,0 +1,15 @@
+//go:build verif
+
+// Verification hook (add-only, compiled only with -tags verif): lets the
+// /verif C11 harness lower the per-program jump limit so that program
+// splitting can be exercised with small policies.  Re-exports an unexported
+// field only; no behaviour of the package changes.
+
+package polprog
+
+// VerifWithMaxJumpsPerProgram sets Builder.maxJumpsPerProgram.
+func VerifWithMaxJumpsPerProgram(n int) Option {
+	return func(b *Builder) {
+		b.maxJumpsPerProgram = n
+	}
+}
